@@ -237,6 +237,30 @@ def nativeWrapper (tgt : Ty) : Option String :=
   | .y => some "mpt_cuchar" | .u => some "mpt_cuint" | .t => some "mpt_culong"
   | _ => none
 
+def wordsAux : List Nat → List Nat → List (List Nat) → List (List Nat)
+  | [], cur, acc => if cur = [] then acc else acc ++ [cur]
+  | c :: r, cur, acc => if isSpace c then wordsAux r [] (if cur = [] then acc else acc ++ [cur]) else wordsAux r (cur ++ [c]) acc
+
+/-- M for `c fseq`: the file iterator hands the words out in order; an accepted read advances, a refused word is gone -/
+def fseqModel : List Ty → List (List Nat) → List String
+  | [], _ => []
+  | _ :: ts, [] => "refused" :: fseqModel ts []
+  | ty :: ts, w :: rest =>
+    match fileToken ty (fun _ => { value := .nan, consumed := 0, erange := false, overflow := false }) w true with
+    | .ok (some o, _) => s!"ok:{outText ty o}" :: fseqModel ts rest
+    | _ => "refused" :: fseqModel ts rest
+
+/-- S for `c fseq`: every call is refused or delivers exactly the number of a word that lies behind all words delivered
+    before (elements come in order and are never delivered twice) -/
+def fseqSpec (ws : Array (List Nat)) : List Ty → Nat → List String
+  | [], _ => [""]
+  | ty :: ts, i =>
+    let oks : List String := ((List.range ws.size).filter (· ≥ i)).flatMap fun k =>
+      match numeral (ws.getD k []) with
+      | some v => if inRange ty v then (fseqSpec ws ts (k + 1)).map fun r => s!" ok:{outText ty (.int (v % ty.card).toNat)}" ++ r else []
+      | none => []
+    (fseqSpec ws ts i).map (" refused" ++ ·) ++ oks
+
 def step (_ : Unit) (w : List String) : Unit × String :=
   match w with
   | ["c", "val", s, t, v] =>
@@ -375,6 +399,51 @@ def step (_ : Unit) (w : List String) : Unit × String :=
         ((), s!"R {l} | C - | I ret=0 | S {l} ; *")
       | _, _ => ((), "bad-op")
     | none => ((), "bad-op")
+  | ["c", "fseq", hex, types] =>
+    match parseHex hex, types.toList.mapM (fun c => Ty.ofName (String.singleton c)) with
+    | some bs, some tys =>
+      if tys = [] ∨ tys.length > 4 ∨ tys.any (fun ty => ty.isFloat ∨ ty = .c) ∨ bs.any (· = 0) then ((), "bad-op") else
+      let ws := wordsAux (bs.map (·.toNat)) [] []
+      let m := " ".intercalate (fseqModel tys ws)
+      let sp := " || ".intercalate ((fseqSpec ws.toArray tys 0).eraseDups.map fun a => (a.drop 1).toString ++ " ; *")
+      ((), s!"R {m} | C - | I - | S {sp}")
+    | _, _ => ((), "bad-op")
+  | ["c", "sconv", hex, t1, t2, alts] =>
+    match parseHex hex, Ty.ofName t1, Ty.ofName t2, parseAlts alts with
+    | some bs, some ty1, some ty2, some al =>
+      let s := cstr (bs.map (·.toNat))
+      if s = [] ∨ s.any isSpace ∨ s.length ≠ bs.length ∨ ty2 = .c then ((), "bad-op") else
+      let acc (ty : Ty) : Option (Option Out) :=
+        if ty.isFloat then
+          match convertStringF ty (strtoF (tgtCTy ty).fmt al s) s true with
+          | .ok (o, _) => some (o.map .flt)
+          | _ => none
+        else
+          match convertString ty s true with
+          | .ok (o, _) => some (o.map .int)
+          | _ => none
+      let first := if (acc ty1).isSome then "ok" else "refused"
+      let second := match acc ty2 with
+        | some (some o) => s!"ok:{outText ty2 o}"
+        | _ => "refused"
+      -- no count is reported here: the element is the whole word, so the value has to be that of its LONGEST numeral
+      -- prefix (anything shorter is a silently truncated element), or the conversion is refused
+      let oks : List String :=
+        if ty2.isFloat then
+          let best := al.foldl (fun (b : Option (Nat × String)) a => match b with
+            | some (k, _) => if a.1 > k then some a else b
+            | none => some a) none
+          match best with
+          | some (_, v) => if v = "ovf" ∨ v = "-ovf" ∨ altInexact v ∨ v = "-" then [] else [s!"ok:{v}"]
+          | none => []
+        else
+          match ((List.range (s.length + 1)).reverse.filterMap fun k => numeral (s.take k)).head? with
+          | some v => if inRange ty2 v then [s!"ok:{outText ty2 (.int (v % ty2.card).toNat)}"] else []
+          | none => []
+      let seconds := (oks ++ ["refused"]).eraseDups
+      let sp := " || ".intercalate (["ok", "refused"].flatMap fun f => seconds.map fun x => s!"first={f} second={x} ; *")
+      ((), s!"R first={first} second={second} | C - | I - | S {sp}")
+    | _, _, _, _ => ((), "bad-op")
   | ["c", "skip", s, v] =>
     -- `mpt_iterator_consume(it, 0, 0)`: no conversion, the iterator advances and the type of the skipped value is returned
     match Ty.ofName s with
